@@ -31,6 +31,7 @@ type faultWriter struct {
 	calls      int
 	accepted   bytes.Buffer
 	beforeFail int // bytes accepted before the first failure
+	temporary  bool // the failing call accepts half of its bytes and returns an error that calls itself temporary
 	failed     bool
 }
 
@@ -42,6 +43,12 @@ func (w *faultWriter) Write(p []byte) (int, error) {
 	}
 	if w.failCall >= 0 && call == w.failCall {
 		w.fail()
+		if w.temporary {
+			// (a deadline or a full send buffer: part of the bytes went out, and the error says "try again")
+			n := len(p) / 2
+			w.accepted.Write(p[:n])
+			return n, tempErr{}
+		}
 		return 0, errInjected
 	}
 	if w.capacity >= 0 && w.accepted.Len()+len(p) > w.capacity {
@@ -56,6 +63,13 @@ func (w *faultWriter) Write(p []byte) (int, error) {
 	w.accepted.Write(p)
 	return len(p), nil
 }
+
+// tempErr follows the convention of net.Error.
+type tempErr struct{}
+
+func (tempErr) Error() string   { return "injected: resource temporarily unavailable" }
+func (tempErr) Temporary() bool { return true }
+func (tempErr) Timeout() bool   { return true }
 
 func (w *faultWriter) fail() {
 	if !w.failed {
@@ -199,7 +213,7 @@ func checkC12(c gen.ProgCase) Verdict {
 		for k := k0; k < W; k += kstep {
 			for _, sticky := range []bool{true, false} {
 				renders++
-				if err := check(&faultWriter{failCall: k, capacity: -1, sticky: sticky}, fmt.Sprintf("write call %d of %d fails (sticky=%v)", k, W, sticky)); err != nil {
+				if err := check(&faultWriter{failCall: k, capacity: -1, sticky: sticky, temporary: !sticky && k%2 == 1}, fmt.Sprintf("write call %d of %d fails (sticky=%v)", k, W, sticky)); err != nil {
 					return bad(true, "%v\n%s data=%v", err, showSources(names, srcs), c.Data)
 				}
 			}
